@@ -378,7 +378,9 @@ pub fn joint_alignment_texts() -> Vec<String> {
 pub fn extra_fault_texts() -> Vec<String> {
     const OFFENDERS: [&str; 12] = ["§", "(", ")", "{", "}", "[", "]", ";", ",", "=", "3", "x"];
     let mut v = Vec::new();
-    for t in crate::props::c04::EXTRA_VALID {
+    let mut all: Vec<String> = crate::props::c04::EXTRA_VALID.iter().map(|s| s.to_string()).collect();
+    all.extend(crate::props::c15::lexeme_context_texts().into_iter().map(|(t, _)| t));
+    for t in all {
         let t = t.replace('¤', " ");
         let toks: Vec<&str> = t.split(' ').collect();
         for i in 0..toks.len() {
@@ -388,6 +390,16 @@ pub fn extra_fault_texts() -> Vec<String> {
             let mut dup = toks.clone();
             dup.insert(i, toks[i]);
             v.push(dup.join(" "));
+            // a run of two or three tokens written twice (one more `, e` / `: e` / `[ e ]`)
+            for w in [2usize, 3] {
+                if i + w <= toks.len() {
+                    let mut dup = toks.clone();
+                    for (k, t) in toks[i..i + w].iter().enumerate() {
+                        dup.insert(i + w + k, t);
+                    }
+                    v.push(dup.join(" "));
+                }
+            }
             for o in OFFENDERS {
                 if toks[i] != o {
                     let mut rep = toks.clone();
@@ -427,6 +439,16 @@ pub fn growing_list_texts(n: usize) -> Vec<String> {
         v.push(format!("for int i in {{{}}} {{ }}", ones));
         v.push(format!("extern e({}) -> int;", vec!["int"; k].join(", ")));
         v.push(format!("{} h r;", "inv @ ".repeat(k)));
+        // colon-separated components (ranges) wherever a range can be written
+        let colons = vec!["1"; k].join(":");
+        v.push(format!("x = m[{}];", colons));
+        v.push(format!("x = m[0, {}];", colons));
+        v.push(format!("m[{}] = 0;", colons));
+        v.push(format!("for int i in [{}] {{ }}", colons));
+        v.push(format!("switch (a) {{ case {} {{ }} }}", colons));
+        v.push(format!("let s = q[{{{}}}];", colons));
+        v.push(format!("x = m[{}", ":".repeat(k)));
+        v.push(format!("x = m[{}", "1:".repeat(k)));
         v.push(format!("f({}", ",".repeat(k)));
         v.push(format!("x = m[{}", ",".repeat(k)));
     }
